@@ -207,7 +207,9 @@ class RefSystem:
             kids = self.children(name)
             gp = self.parents[name][0]
             for c in kids:
-                self.parents[c] = [gp if p == name else p for p in self.parents[c]]
+                new = [gp if p == name else p for p in self.parents[c]]
+                # two inputs collapsing onto one parent: one link remains
+                self.parents[c] = [p for i, p in enumerate(new) if p not in new[:i]]
             self._drop(name)
 
     def _drop(self, n):
